@@ -655,9 +655,9 @@ fn plan_heavy_tf(rng: &mut Rng) -> PlanResult {
     Ok((b.finish()?, planted))
 }
 
-const LONG_LENS: [usize; 22] = [
+const LONG_LENS: [usize; 23] = [
     0, 1, 2, 39, 40, 41, 255, 256, 257, 1000, 4095, 4096, 16_383, 16_384, 32_767, 32_768, 65_000, 65_525,
-    65_526, 65_530, 65_531, 70_000,
+    65_526, 65_527, 65_530, 65_531, 70_000,
 ];
 
 fn long_word(rng: &mut Rng, len: usize, fill: char) -> String {
@@ -891,7 +891,7 @@ fn main() {
         "case = one generated segment (plans: small all-types, df-boundary, big sparse, heavy tf/positions, long terms, json long tokens) written by the real IndexWriter and read back per field; an evaluation = one (segment, field) read-back: term dictionary (num_terms, stream order, keys vs public Term constructors, TermInfo), total_num_tokens, field norms, and for the selected terms doc_freq + postings under Basic/WithFreqs/WithFreqsAndPositions read by scan, by seek/advance programs, by the block cursor (scan, seek, rank, reset). Non-trivial = the field has a posting list of >= 128 documents or records positions. Distinct = field configuration x df class x tf class x log2(#terms) x log2(#docs).",
         ctx.scale(50, 800),
         &[
-            "text is generated as words joined by single spaces; the default/raw/whitespace tokenizers are modelled by their documented rules (split, RemoveLongFilter(40), MAX_TOKEN_LEN)",
+            "text is generated as words joined by single spaces; the default/raw/whitespace tokenizers are modelled by their documented rules (split, RemoveLongFilter(40), MAX_TOKEN_LEN; a JSON text token must also fit the 65535-byte in-memory key after field id + path id + type byte, i.e. <= 65526 bytes, else it is dropped)",
             "one indexing thread, NoMergePolicy and one commit give exactly one segment whose doc ids are the insertion order; cases where the memory budget cut the segment are skipped and counted",
             "term_freq is only compared when the requested option has frequencies; for terms recorded without frequencies (Basic fields, typed JSON values) the documented value 1 is expected",
             "positions() is not called on typed JSON terms of a field with positions (no positions exist; tantivy's merger avoids the call as well)",
